@@ -102,6 +102,14 @@ theorem C13_roundtrip (o : Model.Parser.Opts) (pol : Model.Lexer.Policy) (cif : 
     ∃ back, Model.Parser.parse o pol [] out = { rc := 0, log := [], cif := back } ∧ All2 backBlock cif back :=
   roundtrip_doc 1 o pol cif out (by rw [hdia]; rfl) hun hpr hstore hmfd hutf hL hR hN hw
 
+open Lemmas.WriterChunks in
+/-- **C13_output_units** — in CIF 1.1 mode, on a CIF of CIF 1.1 characters (`cifR .cif1`), the units handed to the stream are
+    CIF 1.1 characters in the sense of the lexical grammar too (`okUnits .cif1`: printable ASCII, HT, LF; no surrogate at all) —
+    the grammar-side counterpart of `C13_pure` (`validate11`, the library's own table). -/
+theorem C13_output_units (nk : Str → Str) (cif : WCif) (out : Str) (hR : cifR .cif1 nk cif) (hw : writeCif 1 cif = .ok out) :
+    Spec.Lexical.okUnits .cif1 none out = true :=
+  output_units 1 nk cif out hR hw
+
 namespace C13Doc
 /-- CIF 1.1 parse with line unfolding and prefix removal on -/
 def opts11 : Model.Parser.Opts :=
